@@ -1199,7 +1199,8 @@ class Convention(abc.ABC, Generic[GridKind, Index]):
 
             values = data_array.values[self.mask]
             kwargs['array'] = values
-            if 'clim' not in kwargs:
+            # There are no limits to find when no cell has a polygon
+            if 'clim' not in kwargs and values.size > 0:
                 kwargs['clim'] = (numpy.nanmin(values), numpy.nanmax(values))
 
         if 'transform' not in kwargs:
